@@ -498,6 +498,19 @@ func mayBeNil(v ssa.Value, depth int) bool {
 			if neverNilError(f, depth+1) {
 				return false
 			}
+			if errPassedThroughNonNil(f, v, depth+1) {
+				return false
+			}
+		}
+		return true
+	case *ssa.Extract:
+		// the error result of a multi-result call
+		if call, ok := v.Tuple.(*ssa.Call); ok {
+			if f := call.Call.StaticCallee(); f != nil && errResultIndex(f) == v.Index {
+				if neverNilError(f, depth+1) || errPassedThroughNonNil(f, call, depth+1) {
+					return false
+				}
+			}
 		}
 		return true
 	case *ssa.UnOp:
@@ -820,6 +833,12 @@ func sameValue(a, b ssa.Value, d int) bool {
 	if d > 12 || a == nil || b == nil {
 		return false
 	}
+	if len(paramArg) > 0 {
+		// a parameter of a new single-call-site helper is the argument at that call (ip.go)
+		if ra, rb := resolveParam(a), resolveParam(b); ra != a || rb != b {
+			return sameValue(ra, rb, d+1)
+		}
+	}
 	switch x := a.(type) {
 	case *ssa.Const:
 		y, ok := b.(*ssa.Const)
@@ -951,6 +970,45 @@ type HeldCond struct {
 
 // heldCondVals is heldConds with the SSA values.
 func heldCondVals(a ssa.Instruction) []HeldCond {
+	return heldCondValsD(a, 0)
+}
+
+// heldCondValsD: in a new helper (ip.go) the conditions that hold at every one of its call sites hold as well.
+func heldCondValsD(a ssa.Instruction, depth int) []HeldCond {
+	out := heldCondVals1(a)
+	h := a.Parent()
+	if len(NewFns) == 0 || !NewFns[h] || depth > ipMaxDepth {
+		return out
+	}
+	sites := helperSites[h]
+	if len(sites) == 0 {
+		return out
+	}
+	first := heldCondValsD(sites[0], depth+1)
+	for _, hc := range first {
+		key := normCond(hc.Cond, hc.Pol)
+		everywhere := true
+		for _, s := range sites[1:] {
+			found := false
+			for _, o := range heldCondValsD(s, depth+1) {
+				if normCond(o.Cond, o.Pol) == key {
+					found = true
+					break
+				}
+			}
+			if !found {
+				everywhere = false
+				break
+			}
+		}
+		if everywhere {
+			out = append(out, hc)
+		}
+	}
+	return out
+}
+
+func heldCondVals1(a ssa.Instruction) []HeldCond {
 	var out []HeldCond
 	fn := a.Parent()
 	ab := a.Block()
@@ -1140,4 +1198,45 @@ func ReachPS(fn *ssa.Function, startEdges []Edge, target func(ssa.Instruction) b
 		}
 	}
 	return nil
+}
+
+// errPassedThroughNonNil: every return of f (a module function or a local closure) carries either a provably non-nil
+// error or one of f's own parameters, and at this call the corresponding argument is known to be non-nil (the call
+// sits on the `err != nil` side of its test): `return reject("why", err)` inside `if err != nil { … }` with a helper
+// that logs and hands the error back is a failing return, like the `return nil, err` it replaced.
+func errPassedThroughNonNil(f *ssa.Function, call *ssa.Call, depth int) bool {
+	if f == nil || f.Blocks == nil || depth > 6 || !inModule(fpkgPath(f)) {
+		return false
+	}
+	if errResultIndex(f) < 0 || len(call.Call.Args) != len(f.Params) {
+		return false
+	}
+	rets := Returns(f)
+	if len(rets) == 0 {
+		return false
+	}
+	for _, r := range rets {
+		ev := retErrVal(r)
+		if ev == nil {
+			return false
+		}
+		ev = unspill(ev)
+		if !mayBeNil(ev, depth+1) {
+			continue
+		}
+		pa, ok := ev.(*ssa.Parameter)
+		if !ok {
+			return false
+		}
+		found := false
+		for i, q := range f.Params {
+			if q == pa && knownNonNilAt(call.Call.Args[i], call) {
+				found = true
+			}
+		}
+		if !found {
+			return false
+		}
+	}
+	return true
 }
